@@ -136,6 +136,18 @@ CHECKS["C18"] = dict(
               "validation of projected ASTs of transpile() output",
 )
 
+CHECKS["C06"] = dict(
+    text="TLC checks on the specification that Quote composed with the lexer's string branch, the transpiler's escaping "
+         "loop (VyEscape) and Python's literal decoding is the identity, yields one STRING token and a literal that "
+         "closes, for every string <= 4 over the escape-relevant alphabet (MC_Quote). The implementation's quotify(s) "
+         "text is run as a program and TLC compares the single pushed value with s and the quote text with Quote(s).",
+    note="Trusted: VyLexer string branch, VyEscape (escaper + literal decoding of the simple escapes). Strings <= 3/4 "
+         "over 10 characters exhaustively, every code-page character in 7 neighbourhoods, random to length 40.",
+    ref="DESIGN.md section 6 C06",
+    technique="TLA+ spec (VyLexer string branch + VyEscape) model-checked by TLC + TLC comparison of the value pushed "
+              "by the quoted text",
+)
+
 NOT_APPLICABLE = {}
 
 DEFAULT_NA = ("check under construction in this round; it will be claimed when its TLA+ module and "
